@@ -5,7 +5,7 @@
    strict_total ltb := irreflexive, transitive, incomparable elements are equal (the dtype's < ; NaN-free) *)
 From Coq Require Import ZArith List Bool.
 From EV Require Import Res Arr Spans SpansSpec SpansBase SpansRef SpansField SpansKernels SpansIndexed SpansOrder
-  SpansReduce SpansMerge SpansIndexedReduce SpansMain SpansSorted SpansFilter SpansRle SpansRleProofs.
+  SpansReduce SpansMerge SpansIndexedReduce SpansMain SpansSorted SpansFilter SpansRle SpansRleProofs SpansRleReduce.
 Import ListNotations.
 Open Scope Z_scope.
 
@@ -270,3 +270,39 @@ Proof. exact (@spans_rle_2_arrays_pf). Qed.
 Print Assumptions spans_rle_2_arrays.
 Example spans_rle_example : spans_of_rle Z_neqb [(7, 4194304); (7, 1); (8, 0); (9, 4194303)] = [0; 4194305; 8388608].
 Proof. vm_compute. reflexivity. Qed.
+
+(* ---- 13. reductions of a run-length encoded column -------------------------------------------------------- *)
+(* rle_slice rl a b encodes rows a..b-1 (expand_slice); rle_*_ref answer every span from the values of the non-empty runs
+   of that slice.  Full: for every encoding and every span list they ARE the reference reductions on the expanded
+   column … *)
+Theorem rle_slice_correct : forall (A:Type) (rl:list (A * Z)) a b, expand (rle_slice rl a b) = slice (expand rl) a b.
+Proof. exact (@expand_slice). Qed.
+Print Assumptions rle_slice_correct.
+Theorem rle_reductions_are_references : forall (A:Type) (ltb:A -> A -> bool) (d:A) sp (rl:list (A * Z)),
+  rle_first_ref d sp rl = first_ref d sp (expand rl) /\
+  rle_last_ref d sp rl = last_ref d sp (expand rl) /\
+  rle_min_ref ltb d sp rl = min_ref ltb d sp (expand rl) /\
+  rle_max_ref ltb d sp rl = max_ref ltb d sp (expand rl) /\
+  rle_index_of_min_ref ltb sp rl = index_of_min_ref ltb sp (expand rl) /\
+  rle_index_of_max_ref ltb sp rl = index_of_max_ref ltb sp (expand rl).
+Proof.
+  intros A ltb d sp rl.
+  exact (conj (rle_first_ref_ok d sp rl) (conj (rle_last_ref_ok d sp rl) (conj (rle_min_ref_ok ltb d sp rl)
+        (conj (rle_max_ref_ok ltb d sp rl) (conj (rle_index_of_min_ref_ok ltb sp rl) (rle_index_of_max_ref_ok ltb sp rl)))))).
+Qed.
+Print Assumptions rle_reductions_are_references.
+(* … hence, on valid spans, what the statement-level kernels return on the expanded column *)
+Theorem apply_spans_rle : forall (A:Type) (ltb:A -> A -> bool) (d zero:A), strict_total ltb ->
+  forall sp (rl:list (A * Z)), valid_spans (rle_len rl) sp ->
+  apply_spans_first zero sp (expand rl) = Ok (rle_first_ref d sp rl) /\
+  apply_spans_last zero sp (expand rl) = Ok (rle_last_ref d sp rl) /\
+  apply_spans_min ltb zero sp (expand rl) = Ok (rle_min_ref ltb d sp rl) /\
+  apply_spans_max ltb zero sp (expand rl) = Ok (rle_max_ref ltb d sp rl) /\
+  apply_spans_index_of_min ltb sp (expand rl) = Ok (rle_index_of_min_ref ltb sp rl) /\
+  apply_spans_index_of_max ltb sp (expand rl) = Ok (rle_index_of_max_ref ltb sp rl).
+Proof. exact (@apply_spans_rle_pf). Qed.
+Print Assumptions apply_spans_rle.
+Example rle_min_example :
+  rle_min_ref Z.ltb 0 [0; 4194304; 8388609] [(5, 4194303); (1, 2); (5, 4194303); (0, 1)] = [1; 0] /\
+  rle_index_of_min_ref Z.ltb [0; 4194304; 8388609] [(5, 4194303); (1, 2); (5, 4194303); (0, 1)] = [4194303; 8388608].
+Proof. vm_compute. split; reflexivity. Qed.
